@@ -63,6 +63,38 @@ static void gen(Rng &r, const Property &d, Property &u, int depth) {
   if (d.hasAttribute("unchecked") && r.coin()) { u.add("free" + std::to_string(r.below(3)), "anything"); }
 }
 
+// link resolution: the calculator file and every sub-package file as the XML loader returns them (no link resolved), and the
+// defaults the real code produces from them; the model splices the packages itself
+static void links_case(const std::string &dir, const std::string &calc) {
+  std::ostringstream o;
+  o << "C11 links " << hexs(calc);
+  Property raw;
+  raw.LoadFromXML(dir + "/" + calc + ".xml");
+  ser(o, raw);
+  std::vector<std::string> pk;
+  std::string sub = dir + "/subpackages/";
+  if (DIR *d = opendir(sub.c_str())) {
+    while (dirent *e = readdir(d)) { std::string n = e->d_name; if (n.size() > 4 && n.substr(n.size() - 4) == ".xml") pk.push_back(n); }
+    closedir(d);
+  }
+  std::sort(pk.begin(), pk.end());
+  o << " | " << pk.size();
+  for (auto &f : pk) {
+    Property doc;
+    doc.LoadFromXML(sub + f);
+    o << " " << hexs(f);
+    ser(o, *(doc.begin()));
+  }
+  o << " |";
+  try {
+    OptionsHandler h(dir);
+    Property D = h.LoadDefaults(calc);
+    o << " OK";
+    ser(o, D);
+  } catch (std::exception &e) { o << " ERR " << hexs(e.what()); }
+  printf("%s\n", o.str().c_str());
+}
+
 static void process_case(Rng &r, const std::string &dir, const std::string &calc) {
   OptionsHandler h(dir);
   Property D = h.LoadDefaults(calc);
@@ -156,6 +188,7 @@ int main(int argc, char **argv) {
   std::sort(calcs.begin(), calcs.end());
   // every calculator once with empty user options, then random user trees
   if (mode == "rand") {
+    for (auto &c : calcs) links_case(dir, c);
     for (auto &c : calcs) for (int k = 0; k < 2; k++) process_case(r, dir, c);
     for (long i = 0; i < N; i++) {
       int k = (int)r.below(10);
